@@ -244,6 +244,18 @@ def notdef_font(rng, fmt):
     return data, dict(format=fmt, config={k: str(v) for k, v in over.items()}, sources=texts, coloured_notdef=True, glyph_order=font.getGlyphOrder())
 
 
+def zero_advance_font(rng, fmt):
+    """a colour font with a zero-advance colour glyph (a combining mark drawn to the left of the origin, in a viewBox of
+    width 0, built with width = 0 and without clipping - upstream's tests/u0301.svg): F37"""
+    srcs = [
+        (build.filename_for((0x1F600,)), '<svg xmlns="http://www.w3.org/2000/svg" viewBox="0 0 100 100"><path d="M10,10 L90,10 L90,90 L10,90 Z" fill="#cc0000"/></svg>', (0x1F600,)),
+        (build.filename_for((0x301,)), '<svg xmlns="http://www.w3.org/2000/svg" viewBox="0 0 0 100"><path d="M-60,10 L-20,10 L-30,40 Z" fill="#0000cc"/></svg>', (0x301,)),
+    ]
+    over = dict(color_format=fmt, upem=1000, ascender=800, descender=-200, width=0, clip_to_viewbox=False, keep_glyph_names=True, output_file="Font.ttf")
+    font, cfg, picos, data = build.build_inprocess(over, srcs)
+    return data, dict(format=fmt, config={k: str(v) for k, v in over.items()}, sources=[s_[1] for s_ in srcs], zero_advance=True)
+
+
 def regrouped_font(rng, fmt):
     """the first and the third glyph share an outline, the second does not: the OT-SVG donor groups 1 and 3, so the
     target's glyph order has to change when the SVG table is donated (charstring fonts: F19)"""
@@ -404,7 +416,9 @@ def compare_kept(inp, out, flags, eps_units):
         cp, p1 = picture.colr_picture(out, name, require_opaque_palette="COLR" not in inp)
         sp, p2 = picture.otsvg_picture(covering[0][0], gid)
         exp, act = (cp, sp) if "COLR" in inp else (sp, cp)
-        d = p1 + p2 + picture.compare_pictures(exp, act, eps=eps_units, unit_tol=eps_units + 0.5, palette_check=False, extra_eps=0.0)
+        # a COLR font with several palettes: the SVG must name the same palette entries (var(--colorN, c)), entry 0 included
+        multi = "COLR" in inp and len(inp["CPAL"].palettes) > 1
+        d = p1 + p2 + picture.compare_pictures(exp, act, eps=eps_units, unit_tol=eps_units + 0.5, palette_check="strict" if multi else False, extra_eps=0.0)
         if d:
             probs.append(f"{name}: COLR and SVG paint different pictures: {d[:3]}")
             break
@@ -487,7 +501,7 @@ def compare_stripped(kept, stripped_data):
 
 
 def run_e2e(report, n, rng, jobs=6):
-    kinds = ["glyf_colr_1", "picosvg", "third1", "glyf_colr_0", "untouchedsvg", "third0", "third_svg", "third_nospace", "cff_colr_1", "cff2_colr_1", "overhang_colr", "overhang_svg", "cff_colr_1_regrouped", "cff2_colr_1_regrouped", "notdef_colr", "notdef_svg"]
+    kinds = ["glyf_colr_1", "picosvg", "third1", "glyf_colr_0", "untouchedsvg", "third0", "third_svg", "third_nospace", "cff_colr_1", "cff2_colr_1", "overhang_colr", "overhang_svg", "cff_colr_1_regrouped", "cff2_colr_1_regrouped", "notdef_colr", "notdef_svg", "zero_advance_colr"]
     plans = []
     for i in range(n):
         kind = kinds[i % len(kinds)]
@@ -502,8 +516,8 @@ def run_e2e(report, n, rng, jobs=6):
             flags = [f_ for f_ in flags if f_ != "--bitmaps"]  # a bitmap is cut to the advance box by construction
         if kind.endswith("_regrouped"):
             flags = [f_ for f_ in flags if f_ != "--bitmaps"]
-        elif kind.startswith("notdef"):
-            # two runs of colour glyph ids: always with bitmaps (one CBLC strike per run)
+        elif kind.startswith(("notdef", "zero_advance")):
+            # two runs of colour glyph ids: always with bitmaps (one CBLC strike per run); a zero-advance glyph: F37
             flags = [f_ for f_ in flags if f_ != "--bitmaps"] + ["--bitmaps"]
         elif kind.startswith("cff"):
             # the first charstring font of each flavour always takes the bitmap path (F20), with metrics that fit CBDT;
@@ -533,6 +547,8 @@ def run_e2e(report, n, rng, jobs=6):
                 data, info = overhang_font(sub, "glyf_colr_1" if kind.endswith("colr") else "picosvg")
             elif kind.startswith("notdef"):
                 data, info = notdef_font(sub, "glyf_colr_1" if kind.endswith("colr") else "picosvg")
+            elif kind.startswith("zero_advance"):
+                data, info = zero_advance_font(sub, "glyf_colr_1")
             else:
                 data, info = nanoemoji_font(sub, kind, v0_expressible="0" in flags, bitmaps="--bitmaps" in flags, fit_cbdt=kind.startswith("cff"))
         except Exception as ex:
@@ -626,8 +642,12 @@ def run_e2e(report, n, rng, jobs=6):
         report.hist("e2e.outcome", "problems" if probs else "ok")
         if probs:
             case["problems"] = probs[:6]
-            report_failure(report, f"e2e_{i}", case)
-            return
+            # F37's class: every problem is the empty bitmap of a colour glyph whose advance is zero
+            transparent = [p_ for p_ in probs if p_.startswith("bitmap of ") and p_.endswith(" is fully transparent")]
+            f37 = out is not None and len(transparent) == len(probs) and all(out["hmtx"][p_[len("bitmap of "):-len(" is fully transparent")]][0] == 0 for p_ in transparent)
+            if report_failure(report, f"e2e_{i}", case, "F37-zero-advance-glyph-empty-bitmap" if f37 else None):
+                return
+            continue
     bad = eval_bad_indices(["Model.Validity Corr.Common Corr.C07"], "", "font_abs", lits, ["font_valid"], tag="c12fonts", shard=60)
     report.notes["fonts_checked_by_coq_predicates"] = len(lits)
     for i in bad["font_valid"]:
